@@ -103,9 +103,13 @@ class quadtree(object):
         if self.parent:
             self.generation = self.parent.generation + 1
             self.all_elements = self.parent.all_elements
+            # elements overlapping this node (not just those centred in it):
+            self.overlapping = [elt for elt in self.parent.overlapping if
+                                rectangles_intersect(elt.bounding_box, bounds)]
         else:
             self.generation = 0
             self.all_elements = set(elements)
+            self.overlapping = list(elements)
         if self.num_elements > 1:
             rects = sub_rectangles(self.bounds)
             rect_elements = [[], [], [], []]
@@ -126,17 +130,8 @@ class quadtree(object):
     num_children = property(get_num_children)
 
     def search_wave(self, pos):
-        from copy import copy
-        todo = copy(self.elements)
-        done = []
-        while len(todo) > 0:
-            elt = todo.pop(0)
+        for elt in self.overlapping:
             if elt.contains_point(pos): return elt
-            done.append(elt)
-            for nbr in elt.neighbour & self.all_elements:
-                if rectangles_intersect(nbr.bounding_box, self.bounds) and \
-                   not ((nbr in done) or (nbr in todo)):
-                    todo.append(nbr)
         return None
 
     def search(self, pos):
